@@ -8,7 +8,7 @@ const staticNote = "Static analysis of /repo's current source (type-checked synt
 
 func init() {
 	register("C01", propMeta{
-		Explanation: staticNote + "Decides the code-shape parts of convergence: (R1/R2) the merge decision table is a strict order on timestamps with an order-independent tie-break (table algebra over all ordering cells); (R3) the dump is complete: every non-private DBI reaches readDBI and every cursor entry is appended with key/value/timestamp/flags split out of the header, markers included; (R4) every snapshot DBI is applied through strategy.Update, every key through Get→Merge→setNewVal; (R5) in shadow mode the capture precedes both the dump and the projection. Further (R7): raw-read mode is only ever switched on in the read-only snapshot transaction, and snapshot names sort chronologically (UTC, fixed width), because peers take the last name of an instance as its newest; the mirror loops visit every DBI unconditionally. The walks over the environment's DBI names (dump) and over the snapshot's DBIs (apply) reach a successful return only behind the end of that loop (no `return nil`/`break` inside that would skip the remaining DBIs while the transaction commits); strategy.Update ends successfully only on io.EOF. Every per-DBI operation of the dump walk is on an element of ReadDBINames called on this transaction in this call (no cached listing); the iterators' Next hands over exactly one entry per call; a failed upload is fatal to the loop.",
+		Explanation: staticNote + "Decides the code-shape parts of convergence: (R1/R2) the merge decision table is a strict order on timestamps with an order-independent tie-break (table algebra over all ordering cells); (R3) the dump is complete: every non-private DBI reaches readDBI and every cursor entry is appended with key/value/timestamp/flags split out of the header, markers included; (R4) every snapshot DBI is applied through strategy.Update, every key through Get→Merge→setNewVal; (R5) in shadow mode the capture precedes both the dump and the projection. Further (R7): raw-read mode is only ever switched on in the read-only snapshot transaction, and snapshot names sort chronologically (UTC, fixed width), because peers take the last name of an instance as its newest; the mirror loops visit every DBI unconditionally. The walks over the environment's DBI names (dump) and over the snapshot's DBIs (apply) reach a successful return only behind the end of that loop (no `return nil`/`break` inside that would skip the remaining DBIs while the transaction commits); strategy.Update ends successfully only on io.EOF. Every per-DBI operation of the dump walk is on an element of ReadDBINames called on this transaction in this call (no cached listing); the iterators' Next hands over exactly one entry per call; a failed upload is fatal to the loop. The two-sided walk visits every stored key also for an empty input (a deletion of the last key of a DBI is captured).",
 		NotDecided:  "Actual convergence over histories, delivery orders and clocks; the bucket; LMDB itself.",
 		Assumptions: []string{"convergence of a join-semilattice merge applied to complete state dumps (standard CRDT argument) is not re-proved here", "hooks (FilterReadDBI etc.) are nil by default"},
 	}, func(c *Check) {
@@ -90,7 +90,7 @@ func init() {
 	})
 
 	register("C03", propMeta{
-		Explanation: staticNote + "Decides the structural conditions under which a committed local write can be destroyed: (R1) the projection shadowToMain is only reached after mainToShadow ran in the same transaction or with localChanged == false, and localChanged ≡ lastTxnID < txn.ID()-1 on the caller's watermark; (R2) the transaction id reported as synced must come from inside the transaction (reports the known check-then-act on env.Info()); (R3) the projection's delete decision must depend on the deleted flag (reports the known empty-value defect); (R4) in native mode the load transaction mutates LMDB only through strategy.Update/OpenDBI(Create) and the dump is a read-only view; (R5) at start-up with data, the capture runs before the first load. Further (R8/R9): in the merge table a stored version is replaced or removed only by an LWW winner, for every stale-marker cutoff, and every key is merged against exactly its stored value; the two-sided walk visits every stored key also for an empty input; remote entries are merged with default timestamp 0 and the load-time cutoff. The capture pass walks every DBI name to the end before it can return successfully. In shadow mode every successful end of the load body ran shadowToMain.",
+		Explanation: staticNote + "Decides the structural conditions under which a committed local write can be destroyed: (R1) the projection shadowToMain is only reached after mainToShadow ran in the same transaction or with localChanged == false, and localChanged ≡ lastTxnID < txn.ID()-1 on the caller's watermark; (R2) the transaction id reported as synced must come from inside the transaction (reports the known check-then-act on env.Info()); (R3) the projection's delete decision must depend on the deleted flag (reports the known empty-value defect); (R4) in native mode the load transaction mutates LMDB only through strategy.Update/OpenDBI(Create) and the dump is a read-only view; (R5) at start-up with data, the capture runs before the first load. Further (R8/R9): in the merge table a stored version is replaced or removed only by an LWW winner, for every stale-marker cutoff, and every key is merged against exactly its stored value; the two-sided walk visits every stored key also for an empty input; remote entries are merged with default timestamp 0 and the load-time cutoff. The capture pass walks every DBI name to the end before it can return successfully. In shadow mode every successful end of the load body ran shadowToMain. The sweeper's cutoff is the configured retention, fractional days included.",
 		NotDecided:  "The interleavings themselves: no schedule is explored.",
 		Assumptions: []string{"LMDB: empty write transactions are not recorded; txn.ID() semantics"},
 	}, func(c *Check) {
@@ -133,7 +133,7 @@ func init() {
 
 func init() {
 	register("C04", propMeta{
-		Explanation: staticNote + "Decides marker handling in the decision tables and the cutoff arithmetic: (R1) deletion markers are dumped like any entry (no filtering by flag); (R2) a key missing from the application DBI becomes a marker stamped with the detection time, an existing marker is left alone; (R3/R4) in the merge table a deleted outcome has no value and timestamps decide regardless of the deleted flag; (R5) a marker is dropped exactly when absent ∧ deleted ∧ older than the cutoff; (R6) the load cutoff is 0 when the sweeper is off and now − RetentionDurationMinusCutoff() when on; (R7) RetentionDurationMinusCutoff() ∈ [0, RetentionDuration()] for every configuration (shape + path-condition proof incl. overflow); (R8) the projection deletes the application key of a marker. Further: a deleted outcome never carries a value; the capture pass runs for every application DBI unconditionally (R9); the timestamp conversion of the cutoff cannot wrap; the iterator is built with the load-time cutoff.",
+		Explanation: staticNote + "Decides marker handling in the decision tables and the cutoff arithmetic: (R1) deletion markers are dumped like any entry (no filtering by flag); (R2) a key missing from the application DBI becomes a marker stamped with the detection time, an existing marker is left alone; (R3/R4) in the merge table a deleted outcome has no value and timestamps decide regardless of the deleted flag; (R5) a marker is dropped exactly when absent ∧ deleted ∧ older than the cutoff; (R6) the load cutoff is 0 when the sweeper is off and now − RetentionDurationMinusCutoff() when on; (R7) RetentionDurationMinusCutoff() ∈ [0, RetentionDuration()] for every configuration (shape + path-condition proof incl. overflow); (R8) the projection deletes the application key of a marker. Further: a deleted outcome never carries a value; the capture pass runs for every application DBI unconditionally (R9); the timestamp conversion of the cutoff cannot wrap; the iterator is built with the load-time cutoff. No hook is installed by the repository's own code (a built-in FilterReadDBI would keep markers out of the snapshots); the two-sided walk calls Clean also when the input is empty.",
 		NotDecided:  "Propagation over histories; concurrency of sweeping (C13); format-version-1 snapshots combined with the sweeper.",
 		Assumptions: []string{"RetentionDuration() >= 0 (retention_days >= 0)"},
 	}, func(c *Check) {
@@ -173,7 +173,7 @@ func init() {
 	})
 
 	register("C05", propMeta{
-		Explanation: staticNote + "Decides the ordering and guard conditions that keep published data in the bucket: (R1) every SendOnce in syncLoop is behind !HasSnapshots (start-up) or behind Contains(ownInstanceID) == false; (R2) the waiting set is filled from SeenInstances() after a successful RunOnce(ctx, true) and instances are removed only when their update is loaded; (R3) the listing that fills it includes the own instance; (R4) SendOnce returns success only after a successful Store (retry loop shape; zero iterations excluded by configuration validation); (R5) the cleaner is told what is merged only after a successful Store, from a map written only after a committed merge; (R6) a failing SendOnce/LoadOnce leaves the loop; (R7) the cleaner's delete rules (C12). Further: Config.Check establishes storage_retry_count >= 1 on every accepting path (otherwise the store loop runs zero times and SendOnce reports success). Every retry of the store loop carries the non-nil Store failure in the variable that is tested after the loop (running out of retries cannot look like success); the unordered listing of seen instances is consumed only by order-independent operations in CleanDisappeared.",
+		Explanation: staticNote + "Decides the ordering and guard conditions that keep published data in the bucket: (R1) every SendOnce in syncLoop is behind !HasSnapshots (start-up) or behind Contains(ownInstanceID) == false; (R2) the waiting set is filled from SeenInstances() after a successful RunOnce(ctx, true) and instances are removed only when their update is loaded; (R3) the listing that fills it includes the own instance; (R4) SendOnce returns success only after a successful Store (retry loop shape; zero iterations excluded by configuration validation); (R5) the cleaner is told what is merged only after a successful Store, from a map written only after a committed merge; (R6) a failing SendOnce/LoadOnce leaves the loop; (R7) the cleaner's delete rules (C12). Further: Config.Check establishes storage_retry_count >= 1 on every accepting path (otherwise the store loop runs zero times and SendOnce reports success). Every retry of the store loop carries the non-nil Store failure in the variable that is tested after the loop (running out of retries cannot look like success); the unordered listing of seen instances is consumed only by order-independent operations in CleanDisappeared. Snapshot names carry the UTC rendering of the snapshot time.",
 		NotDecided:  "Crash points and storage fault sequences as such; the cleaners of other instances.",
 		Assumptions: []string{"simpleblob.Store is atomic per blob", "hooks are nil by default"},
 	}, func(c *Check) {
@@ -200,7 +200,7 @@ func init() {
 	})
 
 	register("C06", propMeta{
-		Explanation: staticNote + "Decides that a snapshot is assembled inside exactly one LMDB transaction and is complete: (R1) SendOnce runs one transaction whose body and everything it reaches start no other; readers get the body's txn; (R2) private DBIs are skipped, all others dumped; (R3) every cursor entry is appended with exactly key, application value, timestamp and masked flags (no transaction id); (R4) the snapshot time is one time.Now() taken inside the transaction and used for metadata, capture and file name; (R5) name and metadata carry the same database/instance; (R6) the recorded DBI flags are those of the original DBI. Further (R7/R8): the name states the snapshot time in UTC with fixed width and a sanitised instance; raw-read mode is only used in the read-only transaction; header.Parse/Skip split header and application value for every extension count. The dump loop over the DBI names is left successfully only at its end.",
+		Explanation: staticNote + "Decides that a snapshot is assembled inside exactly one LMDB transaction and is complete: (R1) SendOnce runs one transaction whose body and everything it reaches start no other; readers get the body's txn; (R2) private DBIs are skipped, all others dumped; (R3) every cursor entry is appended with exactly key, application value, timestamp and masked flags (no transaction id); (R4) the snapshot time is one time.Now() taken inside the transaction and used for metadata, capture and file name; (R5) name and metadata carry the same database/instance; (R6) the recorded DBI flags are those of the original DBI. Further (R7/R8): the name states the snapshot time in UTC with fixed width and a sanitised instance; raw-read mode is only used in the read-only transaction; header.Parse/Skip split header and application value for every extension count. The dump loop over the DBI names is left successfully only at its end. No hook is installed by the repository's own code; ReadDBINames lists every key of the root database; readDBI records name, flags and transform on every successful return.",
 		NotDecided:  "'Later snapshots carry later times' (clock); LMDB MVCC (trusted given R1).",
 		Assumptions: []string{"hooks (BeforeRead, FilterReadDBI, UpdateSnapshotInfo) are nil by default"},
 	}, func(c *Check) {
@@ -229,7 +229,7 @@ func init() {
 	})
 
 	register("C09", propMeta{
-		Explanation: staticNote + "Decides the upload trigger and the watermark discipline: (R1) in every pass of the main loop env.Info() is re-read and LastTxnID > watermark ∧ not waiting for own ∧ database not empty ⇒ SendOnce; (R2) the watermark lastSyncedTxnID is only moved to SendOnce's id after success, to LoadOnce's id when no local change was detected, or to Info's id for an empty database, and LoadOnce is given the current watermark; (R3) the id returned as synced must come from inside the transaction (known finding); (R4) SendOnce returns success only after a successful Store. Further: Config.Check establishes storage_retry_count >= 1; in shadow mode every application DBI is captured unconditionally before the dump (R6).",
+		Explanation: staticNote + "Decides the upload trigger and the watermark discipline: (R1) in every pass of the main loop env.Info() is re-read and LastTxnID > watermark ∧ not waiting for own ∧ database not empty ⇒ SendOnce; (R2) the watermark lastSyncedTxnID is only moved to SendOnce's id after success, to LoadOnce's id when no local change was detected, or to Info's id for an empty database, and LoadOnce is given the current watermark; (R3) the id returned as synced must come from inside the transaction (known finding); (R4) SendOnce returns success only after a successful Store. Further: Config.Check establishes storage_retry_count >= 1; in shadow mode every application DBI is captured unconditionally before the dump (R6). Instances that disappeared from the listing (an empty listing included) leave the set the first upload waits for.",
 		NotDecided:  "Interleavings; that the snapshot contains the write relies on C01-R3/C06.",
 		Assumptions: []string{"LMDB LastTxnID semantics"},
 	}, func(c *Check) {
@@ -256,7 +256,7 @@ func init() {
 	})
 
 	register("C10", propMeta{
-		Explanation: staticNote + "Decides the no-write / no-upload conditions: (R1) a non-winning merge returns the stored slice itself and setNewVal / the IterUpdate callback perform no LMDB mutation for an unchanged value; (R2) the capture use of the merge keeps an unchanged entry without re-stamping and Clean keeps an existing marker; merging an entry a second time is a keep (idempotence on the table); (R3) SendOnce in the main loop only with LastTxnID strictly above the watermark or an overdue forced snapshot (!ReceiveOnly ∧ interval > 0 ∧ elapsed > interval); (R4) merged remote data advances the watermark (does not count as a local change) exactly when no local change was detected. Further (R5/R6): plain DBIs are projected with IterUpdate, only dupsort DBIs are rebuilt; the stale-marker cutoff is on exactly when the sweeper is.",
+		Explanation: staticNote + "Decides the no-write / no-upload conditions: (R1) a non-winning merge returns the stored slice itself and setNewVal / the IterUpdate callback perform no LMDB mutation for an unchanged value; (R2) the capture use of the merge keeps an unchanged entry without re-stamping and Clean keeps an existing marker; merging an entry a second time is a keep (idempotence on the table); (R3) SendOnce in the main loop only with LastTxnID strictly above the watermark or an overdue forced snapshot (!ReceiveOnly ∧ interval > 0 ∧ elapsed > interval); (R4) merged remote data advances the watermark (does not count as a local change) exactly when no local change was detected. Further (R5/R6): plain DBIs are projected with IterUpdate, only dupsort DBIs are rebuilt; the stale-marker cutoff is on exactly when the sweeper is. LoadOnce's local-change result is assigned the transaction-id test or false and nothing else.",
 		NotDecided:  "Fleet-level boundedness; dupsort DBIs (excluded by the statement).",
 		Assumptions: []string{"LMDB records no transaction when nothing was written"},
 	}, func(c *Check) {
@@ -287,7 +287,7 @@ func init() {
 	})
 
 	register("C18", propMeta{
-		Explanation: staticNote + "Decides all-or-nothing merging structurally: (R1) LoadOnce runs one write transaction; nothing reachable from its body starts another; every LMDB call in it gets the body's txn; (R2) every error of the body, the mirror passes, the strategies and the iterator reaches the caller as an error (so LMDB aborts); (R3) version gates: accepted exactly when fv != 0 ∧ fv >= Compat ∧ compat <= Current ∧ txn id != 0; (R4) in format version 1 an empty value denotes a deletion (merge table with fv = 1); (R5) private DBIs are ignored and ValidateTransform succeeds before the DBI is touched; its table is exact; (R6) the application DBI is created only from a v3+ snapshot or with explicit override flags; (R7) cancellation aborts. Further: DBI.Next reports io.EOF only behind cursor >= len(data), so a DBI is never merged partially with success reported. The projection is unconditional in shadow mode; a failing callback makes DBI.Map return an error.",
+		Explanation: staticNote + "Decides all-or-nothing merging structurally: (R1) LoadOnce runs one write transaction; nothing reachable from its body starts another; every LMDB call in it gets the body's txn; (R2) every error of the body, the mirror passes, the strategies and the iterator reaches the caller as an error (so LMDB aborts); (R3) version gates: accepted exactly when fv != 0 ∧ fv >= Compat ∧ compat <= Current ∧ txn id != 0; (R4) in format version 1 an empty value denotes a deletion (merge table with fv = 1); (R5) private DBIs are ignored and ValidateTransform succeeds before the DBI is touched; its table is exact; (R6) the application DBI is created only from a v3+ snapshot or with explicit override flags; (R7) cancellation aborts. Further: DBI.Next reports io.EOF only behind cursor >= len(data), so a DBI is never merged partially with success reported. The projection is unconditional in shadow mode; a failing callback makes DBI.Map return an error. The snapshot's version fields are written by the decoder and the snapshot writer only.",
 		NotDecided:  "Map-full at arbitrary points (LMDB abort semantics trusted given R1/R2); concurrent readers (LMDB MVCC).",
 		Assumptions: []string{"LMDB aborts a write transaction whose callback returns an error"},
 	}, func(c *Check) {
@@ -364,7 +364,7 @@ func init() {
 	})
 
 	register("C13", propMeta{
-		Explanation: staticNote + "Decides the sweeper's per-entry table and scope: (R1) in the slice body an entry is deleted exactly when its header parses, the deleted flag is set and timestamp < cutoff (strict), as Del(dbi, scanner key, scanner value); (R2) the cutoff is now − RetentionDuration(), assigned once before the first slice, and RetentionDuration() is days × 24h without truncation (expression evaluated on sample configurations); (R3) a sweep transaction is opened only in native mode or for a DBI with the private prefix (same constant as the syncer's); (R4) that Del is the only LMDB mutator reachable from the sweeper; (R5) the slice resume cursor is fresh per DBI and recorded unconditionally at the end of each slice. Further (R6/R7): a slice resumes with SetRange on the saved (key, value) and steps past it exactly when it landed on that same entry; a failed slice transaction ends the pass with an error before the resume flag is looked at; the cutoff conversion cannot wrap; raw-read mode is not used. The DBI loop of a pass is left successfully only at its end.",
+		Explanation: staticNote + "Decides the sweeper's per-entry table and scope: (R1) in the slice body an entry is deleted exactly when its header parses, the deleted flag is set and timestamp < cutoff (strict), as Del(dbi, scanner key, scanner value); (R2) the cutoff is now − RetentionDuration(), assigned once before the first slice, and RetentionDuration() is days × 24h without truncation (expression evaluated on sample configurations); (R3) a sweep transaction is opened only in native mode or for a DBI with the private prefix (same constant as the syncer's); (R4) that Del is the only LMDB mutator reachable from the sweeper; (R5) the slice resume cursor is fresh per DBI and recorded unconditionally at the end of each slice. Further (R6/R7): a slice resumes with SetRange on the saved (key, value) and steps past it exactly when it landed on that same entry; a failed slice transaction ends the pass with an error before the resume flag is looked at; the cutoff conversion cannot wrap; raw-read mode is not used. The DBI loop of a pass is left successfully only at its end. An iteration of the DBI loop that starts no sweep transaction is justified only by non-native mode and a non-private name.",
 		NotDecided:  "That every expired marker is removed across slices (depends on lmdbscan's runtime behaviour); concurrency with application writes (LMDB write lock trusted).",
 		Assumptions: []string{"lmdbscan.Scanner iterates the DBI in order; Del(key, value) removes exactly that entry"},
 	}, func(c *Check) {
@@ -388,7 +388,7 @@ func init() {
 
 func init() {
 	register("C16", propMeta{
-		Explanation: staticNote + "Decides delivery/limit structure: (R1) in Downloader.LoadOnce every acquired token is released on every path or handed to the stored update's OnClose, which releases it; (R2) a replaced, not yet merged snapshot is closed; (R3) the sync loop closes every update it obtained directly after LoadOnce; (R4) a failed load sleeps (cancellable) and re-reads the newest name, and/or the receiver notifies on every change of an instance's newest name, so an older decodable snapshot is delivered when the newest is corrupt; corrupt blobs are marked only on decode errors, copied into the ignore list, which gates the listing; (R5) syncLoop returns nil only under OnlyOnce ∧ waiting set empty; instances that disappeared are removed from the waiting set; (R6) the limiter's channel capacity equals the number of tokens, Tokens are minted only after a receive, Release is idempotent; (R7) Next removes what it hands out under the lock. Further: the download token covers the whole lifetime of the compressed blob; the receiver notifies on every change of an instance's newest name (required, not only the retry); without an InstanceReady hook an instance leaves the waiting set only for a snapshot-kind update; metric label arity (R7). The unordered listing handed to CleanDisappeared is consumed only by order-independent operations; the receiver's listing and notification loops handle every element.",
+		Explanation: staticNote + "Decides delivery/limit structure: (R1) in Downloader.LoadOnce every acquired token is released on every path or handed to the stored update's OnClose, which releases it; (R2) a replaced, not yet merged snapshot is closed; (R3) the sync loop closes every update it obtained directly after LoadOnce; (R4) a failed load sleeps (cancellable) and re-reads the newest name, and/or the receiver notifies on every change of an instance's newest name, so an older decodable snapshot is delivered when the newest is corrupt; corrupt blobs are marked only on decode errors, copied into the ignore list, which gates the listing; (R5) syncLoop returns nil only under OnlyOnce ∧ waiting set empty; instances that disappeared are removed from the waiting set; (R6) the limiter's channel capacity equals the number of tokens, Tokens are minted only after a receive, Release is idempotent; (R7) Next removes what it hands out under the lock. Further: the download token covers the whole lifetime of the compressed blob; the receiver notifies on every change of an instance's newest name (required, not only the retry); without an InstanceReady hook an instance leaves the waiting set only for a snapshot-kind update; metric label arity (R7). The unordered listing handed to CleanDisappeared is consumed only by order-independent operations; the receiver's listing and notification loops handle every element. The loader reads the gzip stream itself to its end (no refusal other than a decode error); every successful poll replaces the per-instance map.",
 		NotDecided:  "Eventual delivery as a liveness property; relative speeds; memory actually held by decoded snapshots.",
 		Assumptions: []string{"simpleblob List/Load semantics"},
 	}, func(c *Check) {
@@ -420,7 +420,7 @@ func init() {
 
 func init() {
 	register("C20", propMeta{
-		Explanation: staticNote + "Extracts the encode and decode tables of the dupsort hack and interprets them (no code is run) on representative (key, value) pairs chosen from the statement (zero bytes next to the separator, values longer than the room left, boundary lengths, maximal keys): (R1) constant relations 511 / 255 / 4 / 1; (R2/R3) decode(encode(kv)) == kv on every cell, shadow key length <= 511, empty/oversized keys and malformed shadow keys refused, no index out of range; (R4) while encoding a DBI an equal or descending shadow key is refused; (R5) the transform is recorded when dumping and validated before merging (table); (R6) encode iff dupsort in the capture, decode+EmptyPut iff dupsort in the projection; native schema excludes the hack. Further: the shadow DBI is created with the allowed flag mask applied last. The refill loop of EmptyPut ends successfully only when the iterator reported io.EOF (a tombstone must not end it). A failing callback makes DBI.Map (and with it the encode and decode passes) return an error.",
+		Explanation: staticNote + "Extracts the encode and decode tables of the dupsort hack and interprets them (no code is run) on representative (key, value) pairs chosen from the statement (zero bytes next to the separator, values longer than the room left, boundary lengths, maximal keys): (R1) constant relations 511 / 255 / 4 / 1; (R2/R3) decode(encode(kv)) == kv on every cell, shadow key length <= 511, empty/oversized keys and malformed shadow keys refused, no index out of range; (R4) while encoding a DBI an equal or descending shadow key is refused; (R5) the transform is recorded when dumping and validated before merging (table); (R6) encode iff dupsort in the capture, decode+EmptyPut iff dupsort in the projection; native schema excludes the hack. Further: the shadow DBI is created with the allowed flag mask applied last. The refill loop of EmptyPut ends successfully only when the iterator reported io.EOF (a tombstone must not end it). A failing callback makes DBI.Map (and with it the encode and decode passes) return an error. readDBI records flags and transform on every successful return (an early return for an empty DBI included).",
 		NotDecided:  "Reversibility over all byte strings (only the representative cells are interpreted); the full mirror cycle on real LMDB.",
 		Assumptions: []string{"the representative lengths cover the boundaries of the extracted conditions (every constant in the tables is hit on both sides)"},
 	}, func(c *Check) {
@@ -442,7 +442,7 @@ func init() {
 	})
 
 	register("C11", propMeta{
-		Explanation: staticNote + "Decides the mirror's decision tables and plumbing: (R1) capture table: an unchanged application value keeps its entry and timestamp, a changed or new one is stamped with the detection time; (R2) a key missing from the application DBI becomes a marker (Clean), via the IterUpdate table; (R3) the projection writes exactly the shadow value and deletes the key of a marker (reports the known empty-value defect); (R4) key order: IterUpdate derives integerKey from the DBI's MDB_INTEGERKEY flag, the comparator is selected by it, shadow DBIs are created with that flag from the application DBI (both creation sites); (R5) the sortedness check never rejects a valid first key; (R6) the detection time is taken inside the write transaction; (R7) both passes visit every non-private DBI; raw-read mode is restored after a dump. Further (R8): raw-read mode is never on in a write transaction (complete set of writers of Txn.RawRead enumerated); the endianness probe stores true exactly under the low-byte-first outcome. Both mirror loops are left successfully only at their end (COLLECTION-EXHAUSTED). The capture and projection walks use a listing read from this transaction in this call; in shadow mode every successful end of the load body ran shadowToMain.",
+		Explanation: staticNote + "Decides the mirror's decision tables and plumbing: (R1) capture table: an unchanged application value keeps its entry and timestamp, a changed or new one is stamped with the detection time; (R2) a key missing from the application DBI becomes a marker (Clean), via the IterUpdate table; (R3) the projection writes exactly the shadow value and deletes the key of a marker (reports the known empty-value defect); (R4) key order: IterUpdate derives integerKey from the DBI's MDB_INTEGERKEY flag, the comparator is selected by it, shadow DBIs are created with that flag from the application DBI (both creation sites); (R5) the sortedness check never rejects a valid first key; (R6) the detection time is taken inside the write transaction; (R7) both passes visit every non-private DBI; raw-read mode is restored after a dump. Further (R8): raw-read mode is never on in a write transaction (complete set of writers of Txn.RawRead enumerated); the endianness probe stores true exactly under the low-byte-first outcome. Both mirror loops are left successfully only at their end (COLLECTION-EXHAUSTED). The capture and projection walks use a listing read from this transaction in this call; in shadow mode every successful end of the load body ran shadowToMain. ReadDBINames lists every key of the root database.",
 		NotDecided:  "The mirror's extensional equality with a reference over all contents; changes made while the syncer is down.",
 		Assumptions: []string{"instances share one monotone clock (documented)"},
 	}, func(c *Check) {
@@ -524,7 +524,7 @@ func init() {
 
 func init() {
 	register("C15", propMeta{
-		Explanation: staticNote + "Decides the structural conditions of round-tripping, chronologically sorting names: (R1) the time layout tokenises to fixed-width zero-padded numeric fields, most significant first, down to nanoseconds; dotIndex is its '.'; NameTimestamp is ts.UTC().Format(layout) with '.'→'-'; (R2) BuildName writes database, instance, timestamp, generation, extras joined by \"__\", then '.' and the extension; ParseName cuts the extension at the first '.', requires a registered extension, splits on the same \"__\" into the same four fields in the same order, checks length and '-' and parses with the same layout; (R3) instanceID() returns reUnsafe.ReplaceAllString(n, \"-\") on every path and reUnsafe (parsed with regexp/syntax) replaces '_', '.', and everything outside [a-zA-Z0-9-]; (R4) receiver and cleaner list name+\"__\" and consider only successfully parsed names of kind snapshot. Further: Timestamp.Time is uniformly time.Unix(0, int64(ts)). The listing returned by List is never sorted, reversed or written to before it is scanned, also not through a helper that receives a copy of the slice header.",
+		Explanation: staticNote + "Decides the structural conditions of round-tripping, chronologically sorting names: (R1) the time layout tokenises to fixed-width zero-padded numeric fields, most significant first, down to nanoseconds; dotIndex is its '.'; NameTimestamp is ts.UTC().Format(layout) with '.'→'-'; (R2) BuildName writes database, instance, timestamp, generation, extras joined by \"__\", then '.' and the extension; ParseName cuts the extension at the first '.', requires a registered extension, splits on the same \"__\" into the same four fields in the same order, checks length and '-' and parses with the same layout; (R3) instanceID() returns reUnsafe.ReplaceAllString(n, \"-\") on every path and reUnsafe (parsed with regexp/syntax) replaces '_', '.', and everything outside [a-zA-Z0-9-]; (R4) receiver and cleaner list name+\"__\" and consider only successfully parsed names of kind snapshot. Further: Timestamp.Time is uniformly time.Unix(0, int64(ts)). The listing returned by List is never sorted, reversed or written to before it is scanned, also not through a helper that receives a copy of the slice header. NameExtraItem.String returns the item unchanged.",
 		NotDecided:  "time.Format/Parse behaviour over 1970–2262; injectivity beyond field order; database names containing the separator (documented alphabet).",
 		Assumptions: []string{"database and sanitised instance names contain neither \"__\" nor '.' (documented safe alphabet)"},
 	}, func(c *Check) {
@@ -579,7 +579,7 @@ func init() {
 
 func init() {
 	register("C07", propMeta{
-		Explanation: staticNote + "Decides the structural conditions of a lossless, wire-compatible codec: (R1) for KV, DBI, Snapshot and Meta the (field number, wire type) tables of the generated reference schema (struct tags), of the Field* constants, of the hand-written writers (EncodeTag sites) and of the hand-written readers (switch cases with expectWT / get* helpers) are equal; (R2) the size phase of DBI.Append declares exactly what the emit phase writes and reserves exactly header+message, interpreted on the extracted events for lengths across every varint boundary, and the buffer has capacity after growth; (R3) every decode/skip call in the cursor parsers reads from the buffer sliced at the advancing cursor; (R4) unknown fields are skipped by wire type in every reader; (R5) decoders merge into their receiver and never reset it. Further (R6/R7): no encoder result aliases package-level storage; every encoder scratch buffer is at least as long as the most that can be written into it for all field lengths (linear bounds, followed into helpers, with recognition of a dominating fit test); the Append table is also evaluated at the buffer states around \"exactly enough room\"; the DBI reader reports io.EOF only at the end of the data. Every round of the KV and DBI field loops compares the cursor with the data length before the next tag is read (a message may end after any field, also an unknown one); every DBI of a snapshot is written and every field of a message is looked at; entries are decoded into a zero KV. LoadData collects the decompressed bytes from the gzip reader itself until it reports the end (no bounded or wrapped source that stops early without an error).",
+		Explanation: staticNote + "Decides the structural conditions of a lossless, wire-compatible codec: (R1) for KV, DBI, Snapshot and Meta the (field number, wire type) tables of the generated reference schema (struct tags), of the Field* constants, of the hand-written writers (EncodeTag sites) and of the hand-written readers (switch cases with expectWT / get* helpers) are equal; (R2) the size phase of DBI.Append declares exactly what the emit phase writes and reserves exactly header+message, interpreted on the extracted events for lengths across every varint boundary, and the buffer has capacity after growth; (R3) every decode/skip call in the cursor parsers reads from the buffer sliced at the advancing cursor; (R4) unknown fields are skipped by wire type in every reader; (R5) decoders merge into their receiver and never reset it. Further (R6/R7): no encoder result aliases package-level storage; every encoder scratch buffer is at least as long as the most that can be written into it for all field lengths (linear bounds, followed into helpers, with recognition of a dominating fit test); the Append table is also evaluated at the buffer states around \"exactly enough room\"; the DBI reader reports io.EOF only at the end of the data. Every round of the KV and DBI field loops compares the cursor with the data length before the next tag is read (a message may end after any field, also an unknown one); every DBI of a snapshot is written and every field of a message is looked at; entries are decoded into a zero KV. LoadData collects the decompressed bytes from the gzip reader itself until it reports the end (no bounded or wrapped source that stops early without an error). A length assembled by hand from buffer bytes has every contributing byte tested for its continuation bit.",
 		NotDecided:  "Round-trip equality for all inputs (byte content of the emitted fields is not interpreted); the csproto decoder used for the outer message; gzip.",
 		Assumptions: []string{"csproto.EncodeTag/EncodeVarint write SizeOfVarint bytes; copy copies len(src) bytes into the reserved space"},
 	}, func(c *Check) {
@@ -610,7 +610,7 @@ func init() {
 	})
 
 	register("C08", propMeta{
-		Explanation: staticNote + "Decides the parser discipline that keeps hostile blobs from crashing or hanging the process: (R1) every slice bounded by a wire-derived length is dominated, on its path, by 'length >= 0' and 'length <= remaining bytes'; fixed-size reads by a remaining-bytes check; skipTag returns only constants, decoded varint lengths, or a 64-bit length bounded by len(data) before its conversion to int, each checked against len(data); (R2) every cycle of the cursor loops advances the cursor by at least one decoded varint and reads at the cursor; (R3) no explicit panic is on a feasible path reachable from the decode entry points; (R4) an undecodable blob is marked corrupt (token released, remembered as processed), copied into the ignore list that gates the listing, and the older decodable snapshot is still delivered; (R5) every decode error surfaces to the caller; (R6) pre-allocations depend only on the blob's length; the decoder's field-length limit keeps its arithmetic from overflowing. Further: the wait set drops instances whose snapshots all became undecodable; metric vectors get as many label values as they declare (R7).",
+		Explanation: staticNote + "Decides the parser discipline that keeps hostile blobs from crashing or hanging the process: (R1) every slice bounded by a wire-derived length is dominated, on its path, by 'length >= 0' and 'length <= remaining bytes'; fixed-size reads by a remaining-bytes check; skipTag returns only constants, decoded varint lengths, or a 64-bit length bounded by len(data) before its conversion to int, each checked against len(data); (R2) every cycle of the cursor loops advances the cursor by at least one decoded varint and reads at the cursor; (R3) no explicit panic is on a feasible path reachable from the decode entry points; (R4) an undecodable blob is marked corrupt (token released, remembered as processed), copied into the ignore list that gates the listing, and the older decodable snapshot is still delivered; (R5) every decode error surfaces to the caller; (R6) pre-allocations depend only on the blob's length; the decoder's field-length limit keeps its arithmetic from overflowing. Further: the wait set drops instances whose snapshots all became undecodable; metric vectors get as many label values as they declare (R7). Every successful poll replaces the per-instance map and hasSnapshots.",
 		NotDecided:  "Time/memory proportionality in general (gzip ratio); internals of csproto and gzip; a blob whose framing decodes but whose entries are malformed fails later inside the merge (policy stated in the code).",
 		Assumptions: []string{"csproto.DecodeVarint: on success 1 <= n <= len(p)"},
 	}, func(c *Check) {
